@@ -7,148 +7,817 @@ import (
 	"strings"
 )
 
-// C04 facts: what the Lean model of weighTargets / the ring fill / the pickers / lookup silently depends on.
-// Small expressions are rendered back to source (whitespace-normalised by go/printer) so that an edit of the
-// rule itself — not of the code around it — breaks the obligation in Props/C04Facts.lean.
+// C04 facts: what the Lean model of weighTargets / the ring fill / the pickers / lookup / the entrance
+// checks silently depends on — as EVENTS with variables named by ROLE, so that behaviour-preserving
+// refactorings keep the facts:
+//
+//   - constants are inlined and switches rewritten to if-chains (x.UseNormalizedAST);
+//   - functions are found by role, not by name: weighTargets = the function called by both the function that
+//     builds a Target (addTarget, found from the `"route add"` branch of the exported NewTableCustom) and the
+//     one that spreads a `route weight` share (setWeight, from the `"route weight"` branch); the pickers
+//     through the exported map `Picker`; lookup through the exported `Table.Lookup`; the slot-record type
+//     through the argument of sort.Sort;
+//   - calls to unexported same-package helpers are followed (parameters replaced by the rendered arguments,
+//     `x = helper(..)` + `return e` becomes `x = e`), so extracting or inlining a helper changes nothing;
+//   - every local is renamed to the role it plays (`t` = an element of Targets, `n` = the variable assigned
+//     from int(float64(C) * t.Weight), `used` = the length of the ring, `ring` = the slice made with it, …);
+//   - `for i := range X { v := X[i]; …` is read as `for i, v := range X`, a counting loop `for k := 0; k < Y
+//     (or k != Y); k++` as "for k in 0..Y";
+//   - an event is `[innermost guarding condition] statement`.
+//
+// Names that stay pinned because route/verif_c04.go (or the harness) references them, so that a rename breaks
+// the harness build anyway: the fields Route.Targets / wTargets / total, Target.FixedWeight / Weight, the
+// package variable randIntn, the exported Picker, Table.Lookup, NewTableCustom, RouteDef fields.
+
+type c04walker struct {
+	x      *X
+	dir    string
+	ren    map[string]string
+	events []string
+	stack  map[string]bool
+	global map[string]string // package-level renames (error variables by message)
+}
+
+func (w *c04walker) r(n ast.Node) string { return w.x.RenameLocals(n, w.ren) }
+
+func (w *c04walker) emit(guard, s string) {
+	if guard != "" {
+		s = guard + " " + s
+	}
+	w.events = append(w.events, s)
+}
+
+func c04set(ren map[string]string, e ast.Expr, role string) {
+	if id, ok := e.(*ast.Ident); ok && id.Name != "_" {
+		if _, done := ren[id.Name]; !done {
+			ren[id.Name] = role
+		}
+	}
+}
+
+// c04roles names the locals of one function body by the role they play (see the header). ren may already
+// hold the receiver / parameter substitutions.
+func (w *c04walker) roles(body ast.Node, ren map[string]string) {
+	x := w.x
+	rr := func(n ast.Node) string { return x.RenameLocals(n, ren) }
+	// pass 1: roles recognisable from one statement (closures are scopes of their own, see stmt)
+	ast.Inspect(body, func(n ast.Node) bool {
+		switch v := n.(type) {
+		case *ast.FuncLit:
+			return n == body
+		case *ast.CallExpr:
+			if x.src(v.Fun) == "sort.Sort" && len(v.Args) == 1 {
+				c04set(ren, v.Args[0], "slots")
+			}
+		case *ast.KeyValueExpr:
+			if x.src(v.Key) == "FixedWeight" {
+				c04set(ren, v.Value, "fw")
+			}
+		case *ast.ForStmt:
+			if as, ok := v.Init.(*ast.AssignStmt); ok && as.Tok == token.DEFINE && len(as.Lhs) == 1 {
+				c04set(ren, as.Lhs[0], "k")
+			}
+		case *ast.IfStmt:
+			if strings.Contains(x.src(v.Cond), "FixedWeight") {
+				ast.Inspect(v.Body, func(m ast.Node) bool {
+					if inc, ok := m.(*ast.IncDecStmt); ok && inc.Tok == token.INC {
+						c04set(ren, inc.X, "nf")
+					}
+					return true
+				})
+			}
+		case *ast.AssignStmt:
+			if len(v.Lhs) == 2 && len(v.Rhs) == 2 && v.Tok == token.DEFINE {
+				if b, ok := v.Rhs[1].(*ast.BinaryExpr); ok && b.Op == token.QUO && x.src(v.Rhs[0]) == "0" {
+					c04set(ren, v.Lhs[0], "next")
+					c04set(ren, v.Lhs[1], "step")
+				}
+			}
+			if len(v.Lhs) != 1 || len(v.Rhs) != 1 {
+				return true
+			}
+			lhs, rhs := v.Lhs[0], v.Rhs[0]
+			switch {
+			case v.Tok == token.ADD_ASSIGN:
+				if se, ok := rhs.(*ast.SelectorExpr); ok && se.Sel.Name == "FixedWeight" {
+					c04set(ren, lhs, "sum")
+				}
+			case v.Tok == token.ASSIGN:
+				if c, ok := rhs.(*ast.CallExpr); ok && x.src(c.Fun) == "math.Max" {
+					c04set(ren, lhs, "max")
+				}
+				if se, ok := lhs.(*ast.SelectorExpr); ok && se.Sel.Name == "Weight" {
+					if b, ok := rhs.(*ast.BinaryExpr); ok && b.Op == token.QUO {
+						if b2, ok := b.X.(*ast.BinaryExpr); ok && b2.Op == token.QUO && strings.HasSuffix(x.src(b2.X), ".FixedWeight") {
+							c04set(ren, b2.Y, "unit")
+							c04set(ren, b.Y, "norm")
+						}
+					}
+				}
+				if ix, ok := rhs.(*ast.IndexExpr); ok && strings.HasSuffix(x.src(ix.X), ".Targets") && x.src(ix.Index) == "0" {
+					c04set(ren, lhs, "tgt")
+				}
+			case v.Tok == token.DEFINE:
+				if c, ok := rhs.(*ast.CallExpr); ok {
+					fn := x.src(c.Fun)
+					switch {
+					case fn == "int":
+						c04set(ren, lhs, "n")
+					case fn == "make" && len(c.Args) == 2 && x.src(c.Args[0]) == "[]*Target":
+						c04set(ren, lhs, "ring")
+						c04set(ren, c.Args[1], "used")
+					case fn == "len" && len(c.Args) == 1:
+						if se, ok := c.Args[0].(*ast.SelectorExpr); ok && se.Sel.Name == "Targets" {
+							c04set(ren, lhs, "n")
+							c04set(ren, se.X, "r")
+						}
+					}
+				}
+				if _, ok := rhs.(*ast.FuncLit); ok {
+					c04set(ren, lhs, "loop")
+				}
+				if b, ok := rhs.(*ast.BinaryExpr); ok && b.Op == token.QUO {
+					if s := x.src(b.X); s == "1.0" || s == "1" {
+						c04set(ren, lhs, "eq")
+					}
+				}
+			}
+		}
+		return true
+	})
+	// pass 2: roles that refer to roles of pass 1 or to substituted parameters
+	ast.Inspect(body, func(n ast.Node) bool {
+		switch v := n.(type) {
+		case *ast.FuncLit:
+			return n == body
+		case *ast.RangeStmt:
+			rx := rr(v.X)
+			var kRole, vRole string
+			switch {
+			case strings.HasSuffix(rx, ".Targets"):
+				kRole, vRole = "i", "t"
+			case rx == "slots":
+				kRole, vRole = "j", "s"
+			default:
+				return true
+			}
+			if v.Key != nil {
+				c04set(ren, v.Key, kRole)
+			}
+			if v.Value != nil {
+				c04set(ren, v.Value, vRole)
+			} else if el := c04indexForm(x, v); el != nil {
+				c04set(ren, el, vRole)
+			}
+		case *ast.AssignStmt:
+			if v.Tok == token.DEFINE && len(v.Lhs) == 1 && len(v.Rhs) == 1 {
+				if c, ok := v.Rhs[0].(*ast.CallExpr); ok && rr(c.Fun) == "loop" {
+					c04set(ren, v.Lhs[0], "cnt")
+				}
+				if b, ok := v.Rhs[0].(*ast.BinaryExpr); ok && b.Op == token.QUO {
+					if rr(b.X) == "(1 - sum)" {
+						c04set(ren, v.Lhs[0], "dyn")
+					}
+				}
+			}
+		}
+		return true
+	})
+	// pass 3: needs cnt
+	ast.Inspect(body, func(n ast.Node) bool {
+		if _, ok := n.(*ast.FuncLit); ok {
+			return n == body
+		}
+		if v, ok := n.(*ast.AssignStmt); ok && v.Tok == token.DEFINE && len(v.Lhs) == 1 && len(v.Rhs) == 1 {
+			if b, ok := v.Rhs[0].(*ast.BinaryExpr); ok && b.Op == token.QUO && rr(b.Y) == "float64(cnt)" {
+				c04set(ren, v.Lhs[0], "each")
+			}
+		}
+		return true
+	})
+}
+
+// c04indexForm recognises `for i := range X { v := X[i]; …` and returns the identifier v.
+func c04indexForm(x *X, v *ast.RangeStmt) ast.Expr {
+	if v.Value != nil || v.Key == nil || len(v.Body.List) == 0 {
+		return nil
+	}
+	as, ok := v.Body.List[0].(*ast.AssignStmt)
+	if !ok || as.Tok != token.DEFINE || len(as.Lhs) != 1 || len(as.Rhs) != 1 {
+		return nil
+	}
+	ix, ok := as.Rhs[0].(*ast.IndexExpr)
+	if !ok || x.src(ix.X) != x.src(v.X) || x.src(ix.Index) != x.src(v.Key) {
+		return nil
+	}
+	return as.Lhs[0]
+}
+
+// callee returns the declaration of an unexported same-package function or method called by c (nil if the
+// callee is exported, has no body, is a closure variable, or is already being walked).
+func (w *c04walker) callee(c *ast.CallExpr) (*ast.FuncDecl, ast.Expr) {
+	name := ""
+	var recv ast.Expr
+	switch f := c.Fun.(type) {
+	case *ast.Ident:
+		if f.Obj != nil && f.Obj.Kind == ast.Var {
+			return nil, nil
+		}
+		name = f.Name
+	case *ast.SelectorExpr:
+		name = f.Sel.Name
+		recv = f.X
+	}
+	if name == "" || ast.IsExported(name) || w.stack[name] || len(w.stack) > 4 {
+		return nil, nil
+	}
+	if fd := w.x.anyFuncDecl(w.dir, name); fd != nil {
+		if (fd.Recv != nil) == (recv != nil) {
+			return fd, recv
+		}
+	}
+	return nil, nil
+}
+
+// inline walks the body of fd with its receiver and parameters replaced by the rendered arguments.
+func (w *c04walker) inline(fd *ast.FuncDecl, recv ast.Expr, args []ast.Expr, guard, retTo string) {
+	ren := map[string]string{}
+	for k, v := range w.global {
+		ren[k] = v
+	}
+	if recv != nil && fd.Recv != nil && len(fd.Recv.List) == 1 && len(fd.Recv.List[0].Names) == 1 {
+		ren[fd.Recv.List[0].Names[0].Name] = w.r(recv)
+	}
+	i := 0
+	for _, p := range fd.Type.Params.List {
+		for _, nm := range p.Names {
+			if i < len(args) {
+				ren[nm.Name] = w.r(args[i])
+			}
+			i++
+		}
+	}
+	w.roles(fd.Body, ren)
+	saved := w.ren
+	w.ren = ren
+	w.stack[fd.Name.Name] = true
+	w.block(fd.Body.List, guard, retTo)
+	delete(w.stack, fd.Name.Name)
+	w.ren = saved
+}
+
+func (w *c04walker) block(stmts []ast.Stmt, guard, retTo string) {
+	for _, s := range stmts {
+		w.stmt(s, guard, retTo)
+	}
+}
+
+func (w *c04walker) stmt(s ast.Stmt, guard, retTo string) {
+	x := w.x
+	switch v := s.(type) {
+	case *ast.BlockStmt:
+		w.block(v.List, guard, retTo)
+	case *ast.AssignStmt:
+		if len(v.Rhs) == 1 && len(v.Lhs) == 1 {
+			if fl, ok := v.Rhs[0].(*ast.FuncLit); ok {
+				w.closure(w.r(v.Lhs[0]), fl)
+				return
+			}
+			if c, ok := v.Rhs[0].(*ast.CallExpr); ok {
+				if fd, recv := w.callee(c); fd != nil {
+					w.inline(fd, recv, c.Args, guard, w.r(v.Lhs[0]))
+					return
+				}
+			}
+			// the slot count: int(float64(C) * t.Weight) with the constant reported separately
+			if c, ok := v.Rhs[0].(*ast.CallExpr); ok && x.src(c.Fun) == "int" && len(c.Args) == 1 {
+				if b, ok := c.Args[0].(*ast.BinaryExpr); ok && b.Op == token.MUL {
+					for _, pair := range [][2]ast.Expr{{b.X, b.Y}, {b.Y, b.X}} {
+						if lit := c04number(pair[0]); lit != "" && strings.HasSuffix(w.r(pair[1]), ".Weight") {
+							w.events = append(w.events, "SLOTCONST "+lit)
+							w.emit(guard, w.r(v.Lhs[0])+" "+v.Tok.String()+" int(float64(C) * "+w.r(pair[1])+")")
+							return
+						}
+					}
+				}
+			}
+		}
+		w.emit(guard, w.r(v))
+	case *ast.ExprStmt:
+		if c, ok := v.X.(*ast.CallExpr); ok {
+			if fd, recv := w.callee(c); fd != nil {
+				w.inline(fd, recv, c.Args, guard, "")
+				return
+			}
+		}
+		w.emit(guard, "call "+w.r(v.X))
+	case *ast.IncDecStmt:
+		w.emit(guard, w.r(v))
+	case *ast.BranchStmt:
+		w.emit(guard, v.Tok.String())
+	case *ast.ReturnStmt:
+		if retTo != "" && len(v.Results) == 1 {
+			w.emit(guard, retTo+" = "+w.r(v.Results[0]))
+			return
+		}
+		var rs []string
+		for _, e := range v.Results {
+			rs = append(rs, w.r(e))
+		}
+		if len(w.stack) > 1 && len(rs) == 0 {
+			w.emit(guard, "return(helper)")
+			return
+		}
+		w.emit(guard, strings.TrimSpace("return "+strings.Join(rs, ", ")))
+	case *ast.IfStmt:
+		if v.Init != nil {
+			w.stmt(v.Init, guard, retTo)
+		}
+		c := w.r(v.Cond)
+		w.block(v.Body.List, "["+c+"]", retTo)
+		switch e := v.Else.(type) {
+		case *ast.IfStmt:
+			w.stmt(e, guard, retTo)
+		case *ast.BlockStmt:
+			w.block(e.List, "[!("+c+")]", retTo)
+		}
+	case *ast.ForStmt:
+		switch {
+		case v.Init == nil && v.Post == nil && v.Cond != nil:
+			w.block(v.Body.List, "[while "+w.r(v.Cond)+"]", retTo)
+		default:
+			if hi := c04counting(x, v); hi != nil {
+				w.emit(guard, "for k in 0.."+w.r(hi))
+			} else {
+				h := ""
+				if v.Init != nil {
+					h += w.r(v.Init)
+				}
+				h += "; "
+				if v.Cond != nil {
+					h += w.r(v.Cond)
+				}
+				h += "; "
+				if v.Post != nil {
+					h += w.r(v.Post)
+				}
+				w.emit(guard, "for "+h)
+			}
+			w.block(v.Body.List, guard, retTo)
+		}
+	case *ast.RangeStmt:
+		w.emit(guard, "range "+w.r(v.X))
+		body := v.Body.List
+		if c04indexForm(x, v) != nil {
+			body = body[1:]
+		}
+		w.block(body, guard, retTo)
+	case *ast.DeclStmt:
+		// declarations carry no event
+	default:
+		w.emit(guard, "stmt "+w.r(s))
+	}
+}
+
+// closure walks the body of a function literal bound to a local as a scope of its own: its parameters are
+// c0, c1, …, its remaining locals v0, v1, … (after the role names), events are guarded by `[in <name>]`.
+func (w *c04walker) closure(name string, fl *ast.FuncLit) {
+	fake := &ast.FuncDecl{Name: ast.NewIdent(name), Type: fl.Type, Body: fl.Body}
+	_, params, locals := w.x.LocalNames(fake)
+	ren := map[string]string{}
+	shadow := map[string]bool{}
+	for _, n := range append(append([]string{}, params...), locals...) {
+		shadow[n] = true
+	}
+	for k, v := range w.ren {
+		if !shadow[k] {
+			ren[k] = v
+		}
+	}
+	for i, p := range params {
+		ren[p] = "c" + strconv.Itoa(i)
+	}
+	w.roles(fl.Body, ren)
+	k := 0
+	for _, l := range locals {
+		if _, ok := ren[l]; !ok {
+			ren[l] = "v" + strconv.Itoa(k)
+			k++
+		}
+	}
+	w.emit("", name+" := func/"+strconv.Itoa(len(params)))
+	saved, savedEv := w.ren, w.events
+	w.ren, w.events = ren, nil
+	w.block(fl.Body.List, "", "")
+	inner := w.events
+	w.ren, w.events = saved, savedEv
+	for _, e := range inner {
+		w.events = append(w.events, "[in "+name+"] "+e)
+	}
+}
+
+// c04counting recognises `for k := 0; k < Y; k++` / `k != Y` and returns Y.
+func c04counting(x *X, v *ast.ForStmt) ast.Expr {
+	as, ok := v.Init.(*ast.AssignStmt)
+	if !ok || as.Tok != token.DEFINE || len(as.Lhs) != 1 || len(as.Rhs) != 1 || x.src(as.Rhs[0]) != "0" {
+		return nil
+	}
+	k := x.src(as.Lhs[0])
+	inc, ok := v.Post.(*ast.IncDecStmt)
+	if !ok || inc.Tok != token.INC || x.src(inc.X) != k {
+		return nil
+	}
+	b, ok := v.Cond.(*ast.BinaryExpr)
+	if !ok || (b.Op != token.LSS && b.Op != token.NEQ) || x.src(b.X) != k {
+		return nil
+	}
+	return b.Y
+}
+
+// c04number returns the decimal value of a numeric literal, possibly wrapped in float64( ), else "".
+func c04number(e ast.Expr) string {
+	if c, ok := e.(*ast.CallExpr); ok && len(c.Args) == 1 {
+		if id, ok := c.Fun.(*ast.Ident); ok && id.Name == "float64" {
+			e = c.Args[0]
+		}
+	}
+	if p, ok := e.(*ast.ParenExpr); ok {
+		e = p.X
+	}
+	bl, ok := e.(*ast.BasicLit)
+	if !ok || (bl.Kind != token.INT && bl.Kind != token.FLOAT) {
+		return ""
+	}
+	f, err := strconv.ParseFloat(strings.ReplaceAll(bl.Value, "_", ""), 64)
+	if err != nil || f < 0 || f != float64(uint64(f)) {
+		return ""
+	}
+	return strconv.FormatUint(uint64(f), 10)
+}
+
+// walkFunc produces the event list of a top-level function: receiver -> recv, parameters -> p0, p1, …
+func (w *c04walker) walkFunc(fd *ast.FuncDecl) []string {
+	ren := map[string]string{}
+	for k, v := range w.global {
+		ren[k] = v
+	}
+	if fd.Recv != nil && len(fd.Recv.List) == 1 && len(fd.Recv.List[0].Names) == 1 {
+		ren[fd.Recv.List[0].Names[0].Name] = "recv"
+	}
+	i := 0
+	for _, p := range fd.Type.Params.List {
+		for _, nm := range p.Names {
+			ren[nm.Name] = "p" + strconv.Itoa(i)
+			i++
+		}
+	}
+	if fd.Type.Results != nil {
+		j := 0
+		for _, p := range fd.Type.Results.List {
+			for _, nm := range p.Names {
+				ren[nm.Name] = "res" + strconv.Itoa(j)
+				j++
+			}
+		}
+	}
+	// a parameter that is stored as the requested weight is named by that role
+	ast.Inspect(fd.Body, func(n ast.Node) bool {
+		if kv, ok := n.(*ast.KeyValueExpr); ok && w.x.src(kv.Key) == "FixedWeight" {
+			if id, ok := kv.Value.(*ast.Ident); ok {
+				ren[id.Name] = "fw"
+			}
+		}
+		return true
+	})
+	w.roles(fd.Body, ren)
+	w.ren = ren
+	w.events = nil
+	w.stack = map[string]bool{fd.Name.Name: true}
+	w.block(fd.Body.List, "", "")
+	return w.events
+}
+
+// directCallees lists the unexported same-package functions fd calls directly (closures included).
+func (w *c04walker) directCallees(fd *ast.FuncDecl) map[string]bool {
+	out := map[string]bool{}
+	ast.Inspect(fd.Body, func(n ast.Node) bool {
+		if c, ok := n.(*ast.CallExpr); ok {
+			name := ""
+			switch f := c.Fun.(type) {
+			case *ast.Ident:
+				name = f.Name
+			case *ast.SelectorExpr:
+				name = f.Sel.Name
+			}
+			if name != "" && !ast.IsExported(name) && w.x.anyFuncDecl(w.dir, name) != nil {
+				out[name] = true
+			}
+		}
+		return true
+	})
+	return out
+}
+
+// calleeUnder finds the unexported same-package function called inside the if-branch of fd whose condition
+// mentions the string literal lit (the dispatch on the command in NewTableCustom).
+func (w *c04walker) calleeUnder(fd *ast.FuncDecl, lit string) *ast.FuncDecl {
+	var found *ast.FuncDecl
+	ast.Inspect(fd.Body, func(n ast.Node) bool {
+		if v, ok := n.(*ast.IfStmt); ok && found == nil && strings.Contains(w.x.src(v.Cond), strconv.Quote(lit)) {
+			ast.Inspect(v.Body, func(m ast.Node) bool {
+				if c, ok := m.(*ast.CallExpr); ok && found == nil {
+					w.stack = map[string]bool{}
+					if cd, _ := w.callee(c); cd != nil {
+						found = cd
+					}
+				}
+				return true
+			})
+		}
+		return true
+	})
+	return found
+}
+
+// calleeWithArg finds the unexported function fd calls with several arguments one of which selects field
+// (e.g. `.Weight`); one-argument predicates on the field are not meant.
+func (w *c04walker) calleeWithArg(fd *ast.FuncDecl, field string) *ast.FuncDecl {
+	var found *ast.FuncDecl
+	ast.Inspect(fd.Body, func(n ast.Node) bool {
+		if c, ok := n.(*ast.CallExpr); ok && found == nil && len(c.Args) >= 2 {
+			for _, a := range c.Args {
+				if se, ok := a.(*ast.SelectorExpr); ok && se.Sel.Name == field {
+					w.stack = map[string]bool{}
+					if cd, _ := w.callee(c); cd != nil {
+						found = cd
+					}
+				}
+			}
+		}
+		return true
+	})
+	return found
+}
+
+// entranceChecks renders the leading `if cond { return err }` statements of a command function, with
+// single-expression unexported predicates (validWeight) replaced by their body.
+func (w *c04walker) entranceChecks(fd *ast.FuncDecl) []string {
+	w.walkFunc(fd) // sets w.ren (recv, p0 …)
+	var out []string
+	for _, st := range fd.Body.List {
+		v, ok := st.(*ast.IfStmt)
+		if !ok || v.Init != nil || len(v.Body.List) != 1 {
+			continue
+		}
+		ret, ok := v.Body.List[0].(*ast.ReturnStmt)
+		if !ok || len(ret.Results) != 1 {
+			continue
+		}
+		out = append(out, w.cond(v.Cond)+" => return "+w.r(ret.Results[0]))
+	}
+	return out
+}
+
+// cond renders a condition; a call of an unexported predicate whose body is one return statement is replaced
+// by that expression with the parameters substituted.
+func (w *c04walker) cond(e ast.Expr) string {
+	switch v := e.(type) {
+	case *ast.UnaryExpr:
+		if v.Op == token.NOT {
+			return "!(" + w.cond(v.X) + ")"
+		}
+	case *ast.ParenExpr:
+		return w.cond(v.X)
+	case *ast.BinaryExpr:
+		if v.Op == token.LAND || v.Op == token.LOR {
+			return w.cond(v.X) + " " + v.Op.String() + " " + w.cond(v.Y)
+		}
+	case *ast.CallExpr:
+		w.stack = map[string]bool{}
+		if fd, recv := w.callee(v); fd != nil && recv == nil && len(fd.Body.List) == 1 {
+			if ret, ok := fd.Body.List[0].(*ast.ReturnStmt); ok && len(ret.Results) == 1 {
+				ren := map[string]string{}
+				i := 0
+				for _, p := range fd.Type.Params.List {
+					for _, nm := range p.Names {
+						if i < len(v.Args) {
+							ren[nm.Name] = w.r(v.Args[i])
+						}
+						i++
+					}
+				}
+				saved := w.ren
+				w.ren = ren
+				s := w.cond(ret.Results[0])
+				w.ren = saved
+				return s
+			}
+		}
+	}
+	return w.r(e)
+}
+
 func init() {
 	register("C04", func(x *X) error {
-		// const maxSlots = 1e4
-		if e := x.valueSpec("route", "maxSlots"); e != nil {
-			if bl, ok := e.(*ast.BasicLit); ok {
-				f, err := strconv.ParseFloat(bl.Value, 64)
-				if err != nil || f != float64(uint64(f)) {
-					x.fail("maxSlots literal %q is not a natural number", bl.Value)
-				} else {
-					x.defNat("maxSlots", uint64(f))
+		x.UseNormalizedAST()
+		w := &c04walker{x: x, dir: "route", global: map[string]string{}, stack: map[string]bool{}}
+
+		// package-level error variables are named by their message
+		for _, f := range x.files("route") {
+			for _, d := range f.Decls {
+				gd, ok := d.(*ast.GenDecl)
+				if !ok || gd.Tok != token.VAR {
+					continue
 				}
-			} else {
-				x.fail("maxSlots is not a basic literal: %s", x.src(e))
+				for _, s := range gd.Specs {
+					vs := s.(*ast.ValueSpec)
+					for i, n := range vs.Names {
+						if i < len(vs.Values) {
+							if c, ok := vs.Values[i].(*ast.CallExpr); ok && x.src(c.Fun) == "errors.New" && len(c.Args) == 1 {
+								if msg, ok := x.strLit(c.Args[0]); ok {
+									w.global[n.Name] = "errors.New(" + strconv.Quote(msg) + ")"
+								}
+							}
+						}
+					}
+				}
 			}
 		}
 
-		wt := x.funcDecl("route", "Route", "weighTargets")
-		if wt != nil {
-			// every comparison that mentions FixedWeight
-			var tests []string
-			var ifConds []string
-			var assigns []string
-			var forConds []string
-			ast.Inspect(wt.Body, func(n ast.Node) bool {
-				switch v := n.(type) {
-				case *ast.BinaryExpr:
-					switch v.Op {
-					case token.GTR, token.LSS, token.GEQ, token.LEQ, token.EQL, token.NEQ:
-						if strings.Contains(x.src(v.X), "FixedWeight") || strings.Contains(x.src(v.Y), "FixedWeight") {
-							tests = append(tests, x.src(v))
+		// the command functions, from the dispatch of the exported NewTableCustom on the command constants
+		ntc := x.funcDecl("route", "", "NewTableCustom")
+		if ntc == nil {
+			return nil
+		}
+		addRoute := w.calleeUnder(ntc, "route add")
+		weighRoute := w.calleeUnder(ntc, "route weight")
+		if addRoute == nil || weighRoute == nil {
+			x.fail("NewTableCustom: the functions called for \"route add\" / \"route weight\" were not found")
+			return nil
+		}
+		x.defStrList("addRouteChecks", w.entranceChecks(addRoute))
+		x.defStrList("weighRouteChecks", w.entranceChecks(weighRoute))
+
+		addTarget := w.calleeWithArg(addRoute, "Weight")
+		setWeight := w.calleeWithArg(weighRoute, "Weight")
+		if addTarget == nil || setWeight == nil {
+			x.fail("the functions receiving RouteDef.Weight from the add / weight commands were not found")
+			return nil
+		}
+		// the weighing function: called by both
+		var weigh *ast.FuncDecl
+		a, b := w.directCallees(addTarget), w.directCallees(setWeight)
+		var common []string
+		for n := range a {
+			if b[n] {
+				common = append(common, n)
+			}
+		}
+		if len(common) == 1 {
+			weigh = x.anyFuncDecl("route", common[0])
+		}
+		if weigh == nil {
+			x.fail("no unique function called by both the target-adding and the weight-spreading function: %v", common)
+			return nil
+		}
+
+		// --- weighTargets: events ---
+		ev := w.walkFunc(weigh)
+		var events []string
+		slotConst := ""
+		for _, e := range ev {
+			if strings.HasPrefix(e, "SLOTCONST ") {
+				slotConst = strings.TrimPrefix(e, "SLOTCONST ")
+				continue
+			}
+			events = append(events, e)
+		}
+		x.defStrList("weighEvents", events)
+		if v, err := strconv.ParseUint(slotConst, 10, 64); err == nil {
+			x.defNat("maxSlots", v)
+		} else {
+			x.fail("the slot computation int(float64(C) * t.Weight) with a literal or constant C was not found")
+		}
+		// every comparison on a requested weight, as `FixedWeight <op> <other side>`
+		var tests []string
+		x.WalkInlined("route", weigh, func(n ast.Node) bool {
+			if v, ok := n.(*ast.BinaryExpr); ok {
+				switch v.Op {
+				case token.GTR, token.LSS, token.GEQ, token.LEQ, token.EQL, token.NEQ:
+					if se, ok := v.X.(*ast.SelectorExpr); ok && se.Sel.Name == "FixedWeight" {
+						tests = append(tests, "FixedWeight "+v.Op.String()+" "+x.src(v.Y))
+					} else if se, ok := v.Y.(*ast.SelectorExpr); ok && se.Sel.Name == "FixedWeight" {
+						tests = append(tests, x.src(v.X)+" "+v.Op.String()+" FixedWeight")
+					}
+				}
+			}
+			return true
+		})
+		x.defStrList("fixedWeightTests", tests)
+		// the order of the slot records: Less of the type handed to sort.Sort
+		lessBody := ""
+		var slotsType string
+		x.WalkInlined("route", weigh, func(n ast.Node) bool {
+			if as, ok := n.(*ast.AssignStmt); ok && len(as.Rhs) == 1 && len(as.Lhs) == 1 {
+				if c, ok := as.Rhs[0].(*ast.CallExpr); ok && x.src(c.Fun) == "make" && len(c.Args) >= 1 {
+					if id, ok := c.Args[0].(*ast.Ident); ok && slotsType == "" {
+						slotsType = id.Name
+					}
+				}
+			}
+			return true
+		})
+		if slotsType != "" {
+			for _, f := range x.files("route") {
+				for _, d := range f.Decls {
+					if fd, ok := d.(*ast.FuncDecl); ok && fd.Name.Name == "Less" && fd.Recv != nil && len(fd.Recv.List) == 1 {
+						t := fd.Recv.List[0].Type
+						if st, ok := t.(*ast.StarExpr); ok {
+							t = st.X
+						}
+						if id, ok := t.(*ast.Ident); ok && id.Name == slotsType {
+							lessBody = strings.Join(w.walkFunc(fd), "; ")
 						}
 					}
-				case *ast.IfStmt:
-					ifConds = append(ifConds, x.src(v.Cond)+" => "+x.src(v.Body))
-				case *ast.AssignStmt:
-					assigns = append(assigns, x.src(v))
-				case *ast.ForStmt:
-					if v.Cond != nil && v.Init == nil {
-						forConds = append(forConds, x.src(v.Cond)+" => "+x.src(v.Body))
+				}
+			}
+		}
+		x.defStr("slotsLess", lessBody)
+
+		// --- addTarget's clamp, setWeight's spread ---
+		var at []string
+		for _, e := range w.walkFunc(addTarget) {
+			if strings.HasPrefix(e, "[fw ") {
+				at = append(at, e)
+			}
+		}
+		x.defStrList("addTargetEvents", at)
+		var sw []string
+		for _, e := range w.walkFunc(setWeight) {
+			if strings.Contains(e, "loop") || strings.HasPrefix(e, "each :=") || strings.HasPrefix(e, "cnt :=") || e == "[cnt > 0] recv.wTargets = ring" {
+				sw = append(sw, e)
+			}
+		}
+		x.defStrList("setWeightEvents", sw)
+
+		// --- pickers, through the exported map Picker ---
+		pickers := map[string]*ast.FuncDecl{}
+		if e := x.valueSpec("route", "Picker"); e != nil {
+			if cl, ok := e.(*ast.CompositeLit); ok {
+				for _, el := range cl.Elts {
+					if kv, ok := el.(*ast.KeyValueExpr); ok {
+						if k, ok := x.strLit(kv.Key); ok {
+							if id, ok := kv.Value.(*ast.Ident); ok {
+								pickers[k] = x.anyFuncDecl("route", id.Name)
+							}
+						}
 					}
 				}
-				return true
-			})
-			x.defStrList("fixedWeightTests", tests)
-			x.defStrList("weighIfs", ifConds)
-			x.defStrList("weighAssigns", assigns)
-			x.defStrList("weighWhileLoops", forConds)
-			// sort.Sort(slots) is called, and byN.Less compares the slot counts
-			x.defNat("sortCalls", uint64(len(x.calls(wt.Body, "sort.Sort"))))
+			}
 		}
-		if less := x.funcDecl("route", "byN", "Less"); less != nil {
-			x.defStr("byNLess", x.src(less.Body))
-		}
-
-		// addTarget's clamp, setWeight's spread
-		if at := x.funcDecl("route", "Route", "addTarget"); at != nil && len(at.Body.List) > 0 {
-			x.defStr("addTargetFirst", x.src(at.Body.List[0]))
-		}
-		if sw := x.funcDecl("route", "Route", "setWeight"); sw != nil {
-			var assigns []string
-			ast.Inspect(sw.Body, func(n ast.Node) bool {
-				if v, ok := n.(*ast.AssignStmt); ok {
-					assigns = append(assigns, x.src(v))
-				}
-				return true
-			})
-			x.defStrList("setWeightAssigns", assigns)
-		}
-
-		// rrPicker: what is indexed, the modulus, the increment (tolerant of how the cursor value is obtained)
-		if rr := x.funcDecl("route", "", "rrPicker"); rr != nil {
-			var mods, idx []string
+		if rr := pickers["rr"]; rr != nil {
+			w.walkFunc(rr)
+			var mods, idx, adds []string
 			ast.Inspect(rr.Body, func(n ast.Node) bool {
 				switch v := n.(type) {
 				case *ast.BinaryExpr:
 					if v.Op == token.REM {
-						mods = append(mods, x.src(v.Y))
+						mods = append(mods, w.r(v.Y))
 					}
 				case *ast.IndexExpr:
-					idx = append(idx, x.src(v.X))
+					idx = append(idx, w.r(v.X))
+				case *ast.CallExpr:
+					if x.src(v.Fun) == "atomic.AddUint64" {
+						var as []string
+						for _, a := range v.Args {
+							as = append(as, w.r(a))
+						}
+						adds = append(adds, strings.Join(as, ", "))
+					}
 				}
 				return true
 			})
 			x.defStrList("rrModulus", mods)
 			x.defStrList("rrIndexed", idx)
-			var adds []string
-			for _, c := range x.calls(rr.Body, "atomic.AddUint64") {
-				var as []string
-				for _, a := range c.Args {
-					as = append(as, x.src(a))
-				}
-				adds = append(adds, strings.Join(as, ", "))
-			}
 			x.defStrList("rrAdds", adds)
+		} else {
+			x.fail("Picker[\"rr\"] does not name a function of the package")
 		}
-		if rnd := x.funcDecl("route", "", "rndPicker"); rnd != nil {
-			x.defStr("rndBody", x.src(rnd.Body))
-		}
-
-		// lookup: the n == 0 / n == 1 shortcuts
-		if lk := x.funcDecl("route", "Table", "lookup"); lk != nil {
-			var ifs []string
-			var nDef string
-			ast.Inspect(lk.Body, func(n ast.Node) bool {
-				switch v := n.(type) {
-				case *ast.IfStmt:
-					c := x.src(v.Cond)
-					if c == "n == 0" || c == "n == 1" {
-						s := c + " => " + x.src(v.Body)
-						if v.Else != nil {
-							s += " else " + x.src(v.Else)
-						}
-						ifs = append(ifs, s)
-					}
-				case *ast.AssignStmt:
-					if len(v.Lhs) == 1 && x.src(v.Lhs[0]) == "n" {
-						nDef = x.src(v)
-					}
-				}
-				return true
-			})
-			x.defStrList("lookupShortcuts", ifs)
-			x.defStr("lookupN", nDef)
+		if rnd := pickers["rnd"]; rnd != nil {
+			x.defStrList("rndEvents", w.walkFunc(rnd))
+		} else {
+			x.fail("Picker[\"rnd\"] does not name a function of the package")
 		}
 
-		// the repaired entrance checks: addRoute and weighRoute refuse non-finite weights
-		for _, fn := range []string{"addRoute", "weighRoute"} {
-			if fd := x.funcDecl("route", "Table", fn); fd != nil {
-				var conds []string
-				for _, st := range fd.Body.List {
-					if v, ok := st.(*ast.IfStmt); ok {
-						conds = append(conds, x.src(v.Cond)+" => "+x.src(v.Body))
-					}
+		// --- lookup's shortcuts, through the exported Table.Lookup ---
+		if lk := x.funcDecl("route", "Table", "Lookup"); lk != nil {
+			var sc []string
+			for _, e := range w.walkFunc(lk) {
+				if strings.HasSuffix(e, "n := len(r.Targets)") || strings.HasPrefix(e, "[n == ") || strings.HasPrefix(e, "[!(n == ") {
+					sc = append(sc, e)
 				}
-				x.defStrList(fn+"Checks", conds)
 			}
-		}
-		if vw := x.funcDecl("route", "", "validWeight"); vw != nil {
-			x.defStr("validWeightBody", x.src(vw.Body))
+			x.defStrList("lookupShortcuts", sc)
 		}
 		return nil
 	})
